@@ -248,11 +248,26 @@ def parent_flags_fn(kind, strict):
     """parent matching: kind in none/same/mismatch/one_none"""
 
     def fn(**kw):
-        pa = {"none": None, "same": Parent(id="chrA"), "mismatch": Parent(id="chrA"), "one_none": Parent(id="chrA")}[kind]
-        pb = {"none": None, "same": Parent(id="chrA"), "mismatch": Parent(id="chrB"), "one_none": None}[kind]
+        if kind.startswith("mismatch_") or kind == "same_seq":
+            from inscripta.biocantor.parent import SequenceType
+            from inscripta.biocantor.sequence import Alphabet, Sequence
+
+            sq = lambda txt: Sequence(txt, Alphabet.NT_STRICT)  # noqa: E731
+            pa, pb = {
+                # same id and type, but only one parent / neither parent carries the same sequence: NOT the same coordinate system
+                "mismatch_seq": (Parent(id="chrA", sequence=sq("ACGT" * 8)), Parent(id="chrA")),
+                "mismatch_seq_rev": (Parent(id="chrA"), Parent(id="chrA", sequence=sq("ACGT" * 8))),
+                "mismatch_seq2": (Parent(id="chrA", sequence=sq("ACGT" * 8)), Parent(id="chrA", sequence=sq("TTGA" * 8))),
+                "mismatch_type": (Parent(id="chrA", sequence_type=SequenceType.CHROMOSOME), Parent(id="chrA", sequence_type="plasmid")),
+                "mismatch_grandparent": (Parent(id="chrA", parent=Parent(id="asm1")), Parent(id="chrA", parent=Parent(id="asm2"))),
+                "same_seq": (Parent(id="chrA", sequence=sq("ACGT" * 8)), Parent(id="chrA", sequence=sq("ACGT" * 8))),
+            }[kind]
+        else:
+            pa = {"none": None, "same": Parent(id="chrA"), "mismatch": Parent(id="chrA"), "one_none": Parent(id="chrA")}[kind]
+            pb = {"none": None, "same": Parent(id="chrA"), "mismatch": Parent(id="chrB"), "one_none": None}[kind]
         A, B, la, lb = _operands(1, 1, PLUS, PLUS, kw, pa, pb)
         p = kw["p"]
-        comparable = kind in ("none", "same")
+        comparable = kind in ("none", "same", "same_seq")
         try:
             ov = la.has_overlap(lb, strict_parent_compare=strict)
             it = la.intersection(lb, strict_parent_compare=strict)
@@ -267,7 +282,7 @@ def parent_flags_fn(kind, strict):
             return AND(NOT(ov), it is EmptyLocation(), NOT(co), mult(p, blocks_of(mi)) == mult(p, A))
         R = blocks_of(it)
         ok_parent = True
-        if R and kind == "same":
+        if R and kind in ("same", "same_seq"):
             ok_parent = it.parent is not None and it.parent.id == "chrA"
         return AND(IFF(ov, overlap_spec(A, B)), mult(p, R) == ITE(AND(member(p, A), member(p, B)), 1, 0), ok_parent)
 
@@ -508,6 +523,16 @@ def obligations(tier):
             out.append(Obl("parents_%s_strict%d" % (kind, strict), parent_flags_fn(kind, strict), P, _pre2(1, 1), budget=120, cost=4,
                            desc="parent matching: mismatched parents => no overlap/empty intersection/unchanged difference, or MismatchedParentException when strict",
                            bounds="1x1 blocks, parents by id", examples=[_ex2(1, 1, p=5)]))
+    for kind in ("mismatch_seq", "mismatch_seq_rev", "mismatch_seq2", "mismatch_type", "mismatch_grandparent", "same_seq"):
+        for strict in (False, True):
+            if quick and strict and kind not in ("mismatch_seq", "same_seq"):
+                continue
+            out.append(Obl("parents_%s_strict%d" % (kind, strict), parent_flags_fn(kind, strict), P,
+                           (lambda base: (lambda **kw: base(**kw) and kw["as0"] + kw["al0"] <= 32 and kw["bs0"] + kw["bl0"] <= 32))(_pre2(1, 1)), budget=120, cost=4,
+                           desc="parent matching beyond the id: parents with the same id but a different sequence (or one without sequence), sequence type or grand-parent "
+                                "are different coordinate systems => no overlap/empty intersection/unchanged difference (MismatchedParentException when strict); equal "
+                                "sequence-bearing parents behave as one coordinate system",
+                           bounds="1x1 blocks within a 32-nt parent sequence", examples=[_ex2(1, 1, p=5)]))
     # unary
     ks = [1, 2, 3] if quick else [1, 2, 3, 4]
     for s in (PLUS, MINUS):
